@@ -53,6 +53,12 @@ def _init(space_name, memo):
     from . import run
 
     run.boot(memo=memo)
+    # a pool worker does not run atexit handlers; multiprocessing's own finalizers are run
+    from multiprocessing import util as _mpu
+
+    from . import sandbox as _sb
+
+    _mpu.Finalize(None, _sb.cleanup, exitpriority=10)
     _SPACE = importlib.import_module(f"spaces.{space_name}")
     if hasattr(_SPACE, "worker_init"):
         _SPACE.worker_init()
